@@ -265,6 +265,10 @@ func VerifRdGate() {
 	sizes := [3]int{16, 64, 4096}
 	r := vhOpen(bufio.NewReaderSize(src, sizes[bsize]), 1)
 	buf := make([]byte, 8)
+	if c.preOut > 1000 {
+		// contexts with a 64 KiB prefix: larger reads, or the loop bound below is what ends the run
+		buf = make([]byte, 4096)
+	}
 	var err error
 	for i := 0; i < 400 && err == nil; i++ {
 		var k int
